@@ -242,8 +242,8 @@ func methodCallOf(c ssa.CallInstruction) (name string, recv ssa.Value, args []ss
 type errClass string
 
 const (
-	errChecked   errClass = "checked"    // tested for nil / returned / passed on
-	errConstant  errClass = "constant"   // all inputs are compile-time constants
+	errChecked   errClass = "checked"     // tested for nil / returned / passed on
+	errConstant  errClass = "constant"    // all inputs are compile-time constants
 	errNilGuard  errClass = "nil-guarded" // error dropped, every use of the value is behind a non-nil test of the value
 	errUnusedVal errClass = "value-unused"
 	errDropped   errClass = "dropped" // error dropped and the value used anyway
